@@ -10,6 +10,13 @@ import RuxModel.Model.Bind
                                                   says how `r.Body` delivers `<body>` (`nobody` = `http.NoBody`,
                                                   which demands an empty `<body>`); the model's `Request.body` is
                                                   the byte content, whatever carries it
+    tbind <type> <api> <validator> … (the other 9 fields of bind)
+                                                  -> the answer of bind for a struct type with the same two fields:
+                                                  `<type>` ∈ an | am | ln | pn (no rules) | ar | lr | pr (the rules
+                                                  of the bind op on V); `<validator>` ∈ off | std | keep, where keep
+                                                  = "enabled, and it is the validator earlier ops of the case used".
+                                                  The model is a function of this request and this type only: no
+                                                  earlier bind can change the answer
     esc <s> -> s <hex>   unesc <s> -> ok <hex> | err
     pq <s>  -> v <vals> <0|1>                     (`url.ParseQuery`: values sorted by key, error flag)
     enc <pairs> -> s <hex>                        (`url.Values.Encode` of the map built from the pairs)
@@ -149,12 +156,30 @@ def bindOp (carry : Bytes → BodyCarrier) : List String → String
     | _, _, _, _, _, _, _, _, _, _ => "bad-op"
   | _ => "bad-op"
 
+/-- `<type>` of the `tbind` op ↦ does the struct type declare the rules (`validate:"required|notIn:bad"` on V) -/
+def vtRules : String → Option Bool
+  | "an" | "am" | "ln" | "pn" => some false
+  | "ar" | "lr" | "pr" => some true
+  | _ => none
+
+/-- the `tbind` op: `binding.Validate` of a struct type without rules passes always (= no validator); an enabled
+    validator is the rule of the type, whatever it has been asked before -/
+def vtBindOp : List String → String
+  | typ :: api :: val :: rest =>
+    match vtRules typ with
+    | some rules =>
+      if !(["off", "std", "keep"].contains val) then "bad-op"
+      else bindOp .reader (api :: (if rules && val != "off" then "std" else "off") :: rest)
+    | none => "bad-op"
+  | _ => "bad-op"
+
 def bindStep : List String → String
   | ["src", m, ct] =>
     match Bytes.ofHex m, Bytes.ofHex ct with
     | some m, some ct => sourceStr (autoSource m ct)
     | _, _ => "bad-op"
   | "bind" :: rest => bindOp .reader rest
+  | "tbind" :: rest => vtBindOp rest
   | "bindc" :: carrier :: rest =>
     match parseCarrier carrier (rest.getD 6 "") with
     | some carry => bindOp carry rest
